@@ -117,12 +117,14 @@ def drop_paired(failures, P):
     if not P.get('paired'):
         return
     def twin(o):
+        if o.startswith('kani::'):
+            return o.replace('_blocking_', '_ASYNC_').replace('_async_', '_blocking_').replace('_ASYNC_', '_async_')
         if '::AsyncIpp' in o:
             return o.replace('::AsyncIpp', '::Ipp', 1)
         return re.sub(r'::Ipp(Reader|Parser)::', r'::AsyncIpp\1::', o, count=1)
     names = {f['obligation'] for f in failures}
     for f in failures:
-        if f.get('essential') and f.get('owner') and twin(f['obligation']) != f['obligation'] and twin(f['obligation']) in names:
+        if f.get('essential') and twin(f['obligation']) != f['obligation'] and twin(f['obligation']) in names:
             f['essential'] = False
             f['paired'] = True
 
@@ -247,8 +249,11 @@ def main():
         if woven.report['lost_hints'] and failures:
             # a proof hint could not be placed AND an obligation failed: cannot tell defect from brittleness
             # unless a concrete failing input is found below
+            # (only for obligations of the function that lost the hint)
+            lost_in = {core.norm_owner(h.split(': ')[0]) for h in woven.report['lost_hints']}
             for f in failures:
-                f['hint_lost'] = True
+                if f.get('owner') in lost_in:
+                    f['hint_lost'] = True
 
     # ------------------------------------------------------------------ Kani
     kani_info = None
@@ -257,6 +262,15 @@ def main():
         harnesses += P.get('kani_thorough', [])
     if harnesses:
         kr = kani.run(scratch, harnesses)
+        if P.get('paired'):
+            # C05: a failed harness is judged together with its blocking/async twin (a symmetric change keeps the two equal)
+            tw = lambda n: n.replace('_blocking_', '_ASYNC_').replace('_async_', '_blocking_').replace('_ASYNC_', '_async_')
+            more = [tw(h) for h in harnesses if kr['results'][h]['status'] == 'FAILED' and tw(h) != h and tw(h) not in harnesses]
+            if more:
+                kr2 = kani.run(scratch, more)
+                kr['results'].update(kr2['results'])
+                kr['wall_s'] += kr2['wall_s']
+                harnesses += more
         if kr['compile_error'] and all(v['status'] == 'MISSING' for v in kr['results'].values()):
             return inconclusive('kani harness crate does not compile against the edited tree: ' +
                                 ' '.join(l for l in kr['out'].splitlines() if l.startswith('error'))[:300])
@@ -317,6 +331,16 @@ def main():
     for f in violations:
         f['essential'] = is_essential(f, P)
     drop_paired(violations, P)
+    # a functional clause that fails in a function which also has a failed safety condition in its real code (a call whose
+    # precondition does not hold, an overflow) describes an execution that continues past the panic: not a statement of its own
+    unsafe_owners = {f.get('owner') for f in violations
+                     if f.get('kind') in ('overflow', 'other') or (f.get('kind') == 'pre' and f.get('in_source'))}
+    for f in violations:
+        if f.get('essential') and f.get('owner') in unsafe_owners and f.get('kind') in ('ensures', 'invariant', 'assert') \
+                and not (f.get('kind') == 'pre'):
+            if not any(r.get('safety') for r in P.get('essential', [])):
+                f['essential'] = False
+                f['cascade'] = True
     ess = [f for f in violations if f['essential']]
     sup = [f for f in violations if not f['essential']]
     rc = 0
@@ -334,6 +358,16 @@ def main():
         print(f'VIOLATION property={prop} replay={os.path.relpath(path, vpenv.VERIF)} obligation={f["obligation"]!r}{tail}')
         ev['violations'] += 1
 
+    if ess and not unlisted_bf and P.get('bounded') and tier == 'quick' and bres and bres['ok']:
+        # an obligation that states the property failed and the quick corpus shows no failing input: look harder (the
+        # thorough corpus: 65 535-byte strings, longer token sequences, every cut / not-ready schedule) before reporting
+        # the violation without an input
+        bres2 = bounded_mod.run(scratch, P['bounded'], 'thorough')
+        if bres2['ok'] and bres2['results']:
+            for c, j in bres2['results'].items():
+                if j['failure'] and not match_known(prop, {'obligation': f'bounded::{c}', 'message': j['failure']}, known):
+                    unlisted_bf.append((c, j['failure']))
+            cov['bounded_deeper_search'] = {c: {'cases': j['cases'], 'failed': bool(j['failure'])} for c, j in bres2['results'].items()}
     if unlisted_bf or ess:
         os.makedirs(replay_dir, exist_ok=True)
     if unlisted_bf:
